@@ -114,11 +114,11 @@ def gen_script(rng, classes=None):
         ids[role] = ident
     g = {k: v[0] for k, v in ids.items()}
     ddl = (
-        "CREATE TABLE {S}.{T} (\n  {A} int NOT NULL,\n  {B} varchar(10) REFERENCES {RS}.{RT} ({RC}),\n  {C} date,\n  {D} {S}.{TY} NOT NULL,\n  {E} int,\n"
+        "CREATE TABLE {S}.{T} (\n  {A} int NOT NULL,\n  {B} varchar(10) REFERENCES {RS}.{RT} ({RC})@1,\n  {C} date,\n  {D} {S}.{TY} NOT NULL,\n  {E} int,\n"
         "  CONSTRAINT {CN} PRIMARY KEY ({A}, {B} DESC),\n  CONSTRAINT {UQ} UNIQUE ({B}, {C}, {A}, {D}),\n  CONSTRAINT {CK} CHECK ({A} > 0),\n"
-        "  FOREIGN KEY ({C}) REFERENCES {RT} ({RC}) ON DELETE CASCADE,\n  KEY {IK} ({B})\n);\n"
+        "  FOREIGN KEY ({C}) REFERENCES {RT} ({RC}) ON DELETE CASCADE@2,\n  KEY {IK} ({B})\n);\n"
         "CREATE UNIQUE INDEX {IX} ON {S}.{T} ({A} ASC, {B} DESC);\n"
-        "ALTER TABLE {S}.{T} ADD CONSTRAINT {FK} FOREIGN KEY ({A}) REFERENCES {RS}.{RT} ({RC});\n"
+        "ALTER TABLE {S}.{T} ADD CONSTRAINT {FK} FOREIGN KEY ({A}) REFERENCES {RS}.{RT} ({RC})@3;\n"
         "ALTER TABLE {S}.{T} RENAME COLUMN {E} TO {F};\n"
         "CREATE SEQUENCE {S}.{SQ} START WITH 5;\n"
         "CREATE TYPE {S}.{TY} AS ENUM ('a', 'b');\n"
@@ -126,6 +126,9 @@ def gen_script(rng, classes=None):
         "CREATE TABLE {P}.{S}.{T3} ({A} int REFERENCES {P}.{RS}.{RT} ({RC}), {B} int);\n"
         "CREATE SCHEMA {SC};\n"
     ).format(**g)
+    # what may follow the referenced column list (the names before it stay what they are)
+    for mark in ("@1", "@2", "@3"):
+        ddl = ddl.replace(mark, rng.choice(["", "", " DEFERRABLE INITIALLY DEFERRED", " NOT DEFERRABLE", " DEFERRABLE INITIALLY IMMEDIATE"] + ([" ON UPDATE RESTRICT", " ON DELETE CASCADE DEFERRABLE INITIALLY DEFERRED"] if mark != "@2" else [])))
     layout = "spaced"
     if rng.random() < 0.3:
         # the compact layout: nothing after a comma, nothing inside the parentheses of the column list
